@@ -112,6 +112,10 @@ static void mode_mixed(void)
                 }
                 feat(alone[t][i]);
         }
+        clog_on = 1;
+        clog_title("mixed workload: %d threads each run %llu library operations (hash managers, GCM, XTS, CBC, multi-hash, rolling hash, key expansion; seeded) on private objects, first alone then all together; result hashes compared per operation; static storage compared with its load-time image", nthr, (unsigned long long) nops);
+        for (int t = 0; t < nthr && t < 8; t++) for (uint64_t i = 0; i < nops && i < 5; i++) clog_event("thread %d op %llu: result hash alone %016llx, concurrent %016llx", t, (unsigned long long) i, (unsigned long long) alone[t][i], (unsigned long long) conc[t][i]);
+        clog_on = 0;
         out_max("threads", (uint64_t) nthr);
 }
 
@@ -162,6 +166,10 @@ static void mode_storm(void)
                                 out_viol("C18", key, rb, "%s: after racing first calls the entry is bound to %s, single-threaded resolution binds %s", sym_name(s->entry), sym_name(disp_target_of(s->entry)), sym_name(target));
                         }
                 }
+                clog_on = 1;
+                clog_title("first-call storms: the entry's dispatch slot is re-armed, then %d threads released from a spinning barrier call it at once; every result is compared with the single-threaded result and the final binding with the single-threaded binding", nthr);
+                clog_event("%s under virtual CPU %s: %llu rounds x %d racing first calls, final binding %s, all results equal to the single-threaded ones: %s", sym_name(s->entry), vc, (unsigned long long) g_count, nthr, sym_name(disp_target_of(s->entry)), viol_count() ? "NO" : "yes");
+                clog_on = 0;
                 feat(mix64(0x5702, (uint64_t) ei)); feat(mix64(0x5703, (uint64_t) (uintptr_t) target));
                 out_count("storm_entries", 1);
         }
